@@ -45,7 +45,11 @@ def layouts(text):
         for j in range(1, len(text)):
             if text[j - 1].isspace() and text[j].isspace():
                 yield "a uniformly formatted value with an empty run inside a gap", [(text[:j], A2), ("", {}), (text[j:], A2)]
+                yield "a uniformly formatted value with an empty, differently formatted run inside a gap", [(text[:j], A2), ("", {"underline": True, "fg": 31}), (text[j:], A2)]
                 break
+        if len(text) >= 2 and not text[:1].isspace():
+            # arrived at through a history: a plain str + a value whose views were memoised first
+            yield "a plain str + a looked-at value", ("history", text[:1], [(text[1:k + 1], A1), (text[k + 1:], A2)] if text[k + 1:] else [(text[1:], A1)])
         # every gap uniformly formatted, but each gap with its own value of the same attribute (words plain)
         segs = re.findall(r"\s+|\S+", text)
         if sum(1 for x in segs if x.isspace()) >= 2:
@@ -85,9 +89,19 @@ def check(src, rep):
             for columns in ((1, 2, 3, 5, 9) if rep.tier == "quick" else (1, 2, 3, 4, 5, 6, 9)):
                 jobs.append((t, kind, val, columns))
 
-    def one(job):
+    def one(job, prebuilt=None):
         text, kind, val, columns = job
-        arg = val if kind == "str" else mk(it, *val)
+        if isinstance(val, tuple) and val and val[0] == "history":
+            from .c06 import _look
+            r0 = it.callm(_look(it, mk(it, *val[2])), "__radd__", val[1])
+            if r0[0] != "ok" or not isinstance(r0[1], Obj):
+                return ("W2-words-kept-in-order-with-their-formatting", "%r built as %s" % (text, kind), "building the value gives %s" % (r0,))
+            val = [(val[1], {})] + list(val[2])
+            if cells(runs_of(r0[1])) != cells(val):
+                return None       # concatenation itself is C06's business
+            arg = r0[1]
+        else:
+            arg = prebuilt if prebuilt is not None else val if kind == "str" else mk(it, *val)
         orig = [(ch, ()) for ch in text] if kind == "str" else cells(val)
         r = it.call1("formatstring", "linesplit", arg, columns)
         if r[0] == "opaque":
@@ -196,6 +210,27 @@ def check(src, rep):
             rep.errors.append(res[1])
             break
         bad.setdefault(res[0], []).append(res[1:])
+    # the same object wrapped twice at the same width, the caller having edited the list the first call returned
+    for columns in (4, 9):
+        it3 = new_interp(src, check_views=True)
+        saved, it = it, it3
+        try:
+            layout = [(x, {"fg": 34} if x.isspace() else A3) for x in segs]
+            v = mk(it, *layout)
+            r1 = it.call1("formatstring", "linesplit", v, columns)
+            if r1[0] == "ok" and isinstance(r1[1], list) and r1[1]:
+                pad = it.call1("formatstring", "fmtstr", "  pad ")
+                del r1[1][:1]
+                r1[1].append(pad[1])
+            r2 = one((base, "the same object wrapped again after the caller edited the list the first call returned", layout, columns), prebuilt=v)
+        finally:
+            it = saved
+        rep.case(True)
+        if r2 is not None:
+            if r2[0] == "error":
+                rep.errors.append(r2[1])
+            else:
+                bad.setdefault("W7-a-call-does-not-depend-on-earlier-calls", []).append((r2[1], "[%s] %s" % (r2[0], r2[2])))
     for rule, group in GROUPS.items():
         items = bad.get(rule, [])
         if items:
